@@ -1,8 +1,8 @@
 (* C06 -- pairings: pinned property theorems (statements in full; proofs in coq/C06/*Proofs.v).
    Only `exact`; Examples show that the premises are satisfiable. *)
 From Coq Require Import ZArith Lia List.
-From V Require Import Base.Word Base.Field C15.BigIntModel C02.Quad C02.Cubic C02.Towers C02.Inst.
-From V Require Import C06.Miller C06.FinalExp C06.Tower12 C06.Laws C06.ExpAlgebra C06.FinalExpProofs C06.MillerProofs C06.Tower12Proofs C06.LawProofs C06.Examples.
+From V Require Import Base.Word Base.Field C15.BigIntModel C02.Quad C02.Cubic C02.Towers C02.Inst C02.InstProofs C02.ZpInst.
+From V Require Import C06.Miller C06.FinalExp C06.Tower12 C06.Mnt C06.Bw6 C06.Laws C06.ExpAlgebra C06.FinalExpProofs C06.MillerProofs C06.Tower12Proofs C06.LawProofs C06.Examples C06.MntProofs C06.Bw6Proofs C06.Bw6ExpProofs C06.CurveConsts C06.CurveFacts C06.Tower12Zp C06.MntZp.
 Import ListNotations.
 Open Scope Z_scope.
 
@@ -600,6 +600,475 @@ Theorem C06_law_model_all_true :
   forall op r, law_model op = Some r -> forallb (fun b => b) r = true.
 Proof. exact law_model_all_true. Qed.
 
+(* ======== MNT4 / MNT6 / BW6 executed models, per-curve closed facts, premises discharged over Z_p ======== *)
+
+(* MNT4/MNT6 (executed model Mnt.v): on one pair multi_miller_loop is the single-pair ate_miller_loop *)
+Theorem C06_mnt_multi_single :
+  forall (T0 E : Type) (LE : level T0 E) (LT : level T0 (E * E)) (embed : T0 -> E) (mnt6 : bool) 
+         (ate : list Z) (ate_neg : bool),
+       (forall a : T, mtmul LT (mtone LT) a = a) ->
+       forall (p : g1p) (q : g2p),
+       mnt_multi_miller_prepared LE LT embed mnt6 ate ate_neg [(p, q)] =
+       mnt_ate_miller_loop LE LT embed mnt6 ate ate_neg p q.
+Proof. exact (@mnt_multi_single). Qed.
+
+(* MNT: multi_miller_loop is multiplicative over concatenation of the pair lists *)
+Theorem C06_mnt_multi_app :
+  forall (T0 E : Type) (LE : level T0 E) (LT : level T0 (E * E)) (embed : T0 -> E) (mnt6 : bool) 
+         (ate : list Z) (ate_neg : bool),
+       (forall a b c : T, mtmul LT a (mtmul LT b c) = mtmul LT (mtmul LT a b) c) ->
+       (forall a b : T, mtmul LT a b = mtmul LT b a) ->
+       (forall a : T, mtmul LT (mtone LT) a = a) ->
+       forall a b : list (g1p * g2p),
+       mnt_multi_miller_prepared LE LT embed mnt6 ate ate_neg (a ++ b) =
+       mnt_mul_opt LT (mnt_multi_miller_prepared LE LT embed mnt6 ate ate_neg a)
+         (mnt_multi_miller_prepared LE LT embed mnt6 ate ate_neg b).
+Proof. exact (@mnt_multi_app). Qed.
+
+(* (b) MNT multi_miller_loop over ANY list = product of its values on the single pairs (None iff some pair panics) *)
+Theorem C06_mnt_multi_equals_product :
+  forall (T0 E : Type) (LE : level T0 E) (LT : level T0 (E * E)) (embed : T0 -> E) (mnt6 : bool) 
+         (ate : list Z) (ate_neg : bool),
+       (forall a b c : T, mtmul LT a (mtmul LT b c) = mtmul LT (mtmul LT a b) c) ->
+       (forall a b : T, mtmul LT a b = mtmul LT b a) ->
+       (forall a : T, mtmul LT (mtone LT) a = a) ->
+       forall pairs : list (g1p * g2p),
+       mnt_multi_miller_prepared LE LT embed mnt6 ate ate_neg pairs =
+       mnt_product_of_pairs LE LT embed mnt6 ate ate_neg pairs.
+Proof. exact (@mnt_multi_equals_product). Qed.
+
+(* MNT: G2Prepared::from(identity) has empty coefficient lists (TWIST invertible) *)
+Theorem C06_mnt_g2_prepare_identity :
+  forall (T0 E : Type) (LE : level T0 E) (mnt6 : bool) (twist twist_a : E) (ate : list Z) 
+         (ate_neg : bool) (ti : E),
+       einv LE twist = Some ti ->
+       mnt_g2_prepare LE mnt6 twist twist_a ate ate_neg None =
+       Some (f0 (lF LE), f0 (lF LE), fmul (lF LE) (f0 (lF LE)) ti, fmul (lF LE) (f0 (lF LE)) ti, [], []).
+Proof. exact (@mnt_g2_prepare_identity). Qed.
+
+(* (c) MNT: a prepared G2 point with an empty double-coefficient list pairs to one with every G1 point *)
+Theorem C06_mnt_ate_identity :
+  forall (T0 E : Type) (LE : level T0 E) (LT : level T0 (E * E)) (embed : T0 -> E) (mnt6 : bool) 
+         (ate : list Z) (ate_neg : bool) (p : g1p) (x y xot yot : E) (acs : list acoef),
+       mnt_ate_miller_loop LE LT embed mnt6 ate ate_neg p (x, y, xot, yot, [], acs) = Some (mtone LT).
+Proof. exact (@mnt_ate_identity). Qed.
+
+(* (c) MNT: a pair whose G2 side is the identity can be dropped from any list, at any position *)
+Theorem C06_mnt_identity_pair_dropped :
+  forall (T0 E : Type) (LE : level T0 E) (LT : level T0 (E * E)) (embed : T0 -> E) (mnt6 : bool) 
+         (ate : list Z) (ate_neg : bool),
+       (forall a b c : T, mtmul LT a (mtmul LT b c) = mtmul LT (mtmul LT a b) c) ->
+       (forall a b : T, mtmul LT a b = mtmul LT b a) ->
+       (forall a : T, mtmul LT (mtone LT) a = a) ->
+       forall (a b : list (g1p * (E * E * E * E * list dcoef * list acoef))) (p : g1p) (x y xot yot : E)
+         (acs : list acoef),
+       mnt_multi_miller_prepared LE LT embed mnt6 ate ate_neg (a ++ (p, (x, y, xot, yot, [], acs)) :: b) =
+       mnt_multi_miller_prepared LE LT embed mnt6 ate ate_neg (a ++ b).
+Proof. exact (@mnt_identity_pair_dropped). Qed.
+
+(* MNT: unprepared inputs = prepared inputs *)
+Theorem C06_mnt_prepared_equals_unprepared :
+  forall (T0 E : Type) (Fp : Fops T0) (LE : level T0 E) (LT : level T0 (E * E)) (embed : T0 -> E) 
+         (mnt6 : bool) (twist twist_a : E) (ate : list Z) (ate_neg : bool)
+         (pairs : list (option (T0 * T0) * option (E * E))),
+       mnt_multi_miller Fp LE LT embed mnt6 twist twist_a ate ate_neg pairs =
+       match mnt_prepare_pairs Fp LE mnt6 twist twist_a ate ate_neg pairs with
+       | Some l => mnt_multi_miller_prepared LE LT embed mnt6 ate ate_neg l
+       | None => None
+       end.
+Proof. exact (@mnt_prepared_equals_unprepared). Qed.
+
+(* MNT4 over the integers mod p (ZpS p): multi = product with NO field-arithmetic premise (C02 ring theorems used) *)
+Theorem C06_mnt4_multi_equals_product_zp :
+  forall (p cid : Z) (nr2 : Zp p) (tab2 tab4 : list (Zp p)),
+       fp2_consts_ok cid (ZpS p) nr2 ->
+       forall (embed : Zp p -> Zp p * Zp p) (ate : list Z) (ate_neg : bool) (pairs : list (g1p * g2p)),
+       mnt_multi_miller_prepared (L2 cid (ZpS p) nr2 tab2) (L4 cid (ZpS p) nr2 tab2 (f0 (ZpS p), f1 (ZpS p)) tab4)
+         embed false ate ate_neg pairs =
+       mnt_product_of_pairs (L2 cid (ZpS p) nr2 tab2) (L4 cid (ZpS p) nr2 tab2 (f0 (ZpS p), f1 (ZpS p)) tab4) embed
+         false ate ate_neg pairs.
+Proof. exact (@mnt4_multi_equals_product_zp). Qed.
+
+(* MNT6 over the integers mod p: the same *)
+Theorem C06_mnt6_multi_equals_product_zp :
+  forall (p cid : Z) (nr3 : Zp p) (t1 t2 tab6b : list (Zp p)),
+       fp3_consts_ok cid (ZpS p) nr3 ->
+       forall (embed : Zp p -> Zp p * Zp p * Zp p) (ate : list Z) (ate_neg : bool) (pairs : list (g1p * g2p)),
+       mnt_multi_miller_prepared (L3 cid (ZpS p) nr3 t1 t2)
+         (L6b cid (ZpS p) nr3 t1 t2 (f0 (ZpS p), f1 (ZpS p), f0 (ZpS p)) tab6b) embed true ate ate_neg pairs =
+       mnt_product_of_pairs (L3 cid (ZpS p) nr3 t1 t2)
+         (L6b cid (ZpS p) nr3 t1 t2 (f0 (ZpS p), f1 (ZpS p), f0 (ZpS p)) tab6b) embed true ate ate_neg pairs.
+Proof. exact (@mnt6_multi_equals_product_zp). Qed.
+
+(* MNT4 over Z_p: G2-identity pair dropped, no premise *)
+Theorem C06_mnt4_identity_pair_dropped_zp :
+  forall (p cid : Z) (nr2 : Zp p) (tab2 tab4 : list (Zp p)),
+       fp2_consts_ok cid (ZpS p) nr2 ->
+       forall (embed : Zp p -> Zp p * Zp p) (ate : list Z) (ate_neg : bool)
+         (a b : list (g1p * (Zp p * Zp p * (Zp p * Zp p) * (Zp p * Zp p) * (Zp p * Zp p) * list dcoef * list acoef)))
+         (q : g1p) (x y xot yot : Zp p * Zp p) (acs : list acoef),
+       mnt_multi_miller_prepared (L2 cid (ZpS p) nr2 tab2) (L4 cid (ZpS p) nr2 tab2 (f0 (ZpS p), f1 (ZpS p)) tab4)
+         embed false ate ate_neg (a ++ (q, (x, y, xot, yot, [], acs)) :: b) =
+       mnt_multi_miller_prepared (L2 cid (ZpS p) nr2 tab2) (L4 cid (ZpS p) nr2 tab2 (f0 (ZpS p), f1 (ZpS p)) tab4)
+         embed false ate ate_neg (a ++ b).
+Proof. exact (@mnt4_identity_pair_dropped_zp). Qed.
+
+(* MNT6 over Z_p: G2-identity pair dropped, no premise *)
+Theorem C06_mnt6_identity_pair_dropped_zp :
+  forall (p cid : Z) (nr3 : Zp p) (t1 t2 tab6b : list (Zp p)),
+       fp3_consts_ok cid (ZpS p) nr3 ->
+       forall (embed : Zp p -> Zp p * Zp p * Zp p) (ate : list Z) (ate_neg : bool)
+         (a
+          b : list
+                (g1p *
+                 (Zp p * Zp p * Zp p * (Zp p * Zp p * Zp p) * (Zp p * Zp p * Zp p) * (Zp p * Zp p * Zp p) *
+                  list dcoef * list acoef))) (q : g1p) (x y xot yot : Zp p * Zp p * Zp p) 
+         (acs : list acoef),
+       mnt_multi_miller_prepared (L3 cid (ZpS p) nr3 t1 t2)
+         (L6b cid (ZpS p) nr3 t1 t2 (f0 (ZpS p), f1 (ZpS p), f0 (ZpS p)) tab6b) embed true ate ate_neg
+         (a ++ (q, (x, y, xot, yot, [], acs)) :: b) =
+       mnt_multi_miller_prepared (L3 cid (ZpS p) nr3 t1 t2)
+         (L6b cid (ZpS p) nr3 t1 t2 (f0 (ZpS p), f1 (ZpS p), f0 (ZpS p)) tab6b) embed true ate ate_neg 
+         (a ++ b).
+Proof. exact (@mnt6_identity_pair_dropped_zp). Qed.
+
+(* BW6 stage 1 (chunk independence): when the single-pair first loops succeed (collect), f_u computed in chunks of 4 = the unchunked first loop over the whole list *)
+Theorem C06_bw6_fu_chunk_independent :
+  forall (T C P : Type) (tone : T) (tmul : T -> T -> T) (tsq : T -> T) (ell : T -> C -> P -> T)
+         (line : C -> P -> T),
+       (forall a b c : T, tmul a (tmul b c) = tmul (tmul a b) c) ->
+       (forall a b : T, tmul a b = tmul b a) ->
+       (forall a : T, tmul tone a = a) ->
+       (forall f : T, tsq f = tmul f f) ->
+       (forall (f : T) (c : C) (p : P), ell f c p = tmul f (line c p)) ->
+       forall (bits1 : list bool) (ps : list pstate) (g : T) (r : list pstate),
+       collect tone tmul (skel_loop1 tsq ell bits1) ps = Some (g, r) ->
+       skel_fu tone tmul tsq ell bits1 ps = Some (g, r) /\ skel_loop1 tsq ell bits1 tone ps = Some (g, r).
+Proof. exact (@skel_fu_unchunked). Qed.
+
+(* BW6 stage 1: the first loop from one over a concatenation = product of the two runs (f_u of a list = product of the single-pair f_u) *)
+Theorem C06_bw6_fu_app :
+  forall (T C P : Type) (tone : T) (tmul : T -> T -> T) (tsq : T -> T) (ell : T -> C -> P -> T)
+         (line : C -> P -> T),
+       (forall a b c : T, tmul a (tmul b c) = tmul (tmul a b) c) ->
+       (forall a b : T, tmul a b = tmul b a) ->
+       (forall a : T, tmul tone a = a) ->
+       (forall f : T, tsq f = tmul f f) ->
+       (forall (f : T) (c : C) (p : P), ell f c p = tmul f (line c p)) ->
+       forall (bits1 : list bool) (a b : list pstate) (ga : T) (ra : list pstate) (gb : T) (rb : list pstate),
+       skel_loop1 tsq ell bits1 tone a = Some (ga, ra) ->
+       skel_loop1 tsq ell bits1 tone b = Some (gb, rb) ->
+       skel_loop1 tsq ell bits1 tone (a ++ b) = Some (tmul ga gb, ra ++ rb).
+Proof. exact (@skel_fu_app). Qed.
+
+(* BW6: f_u enters f_1 exactly once: f_1 = f_u * (the fold of one line per pair started from one) *)
+Theorem C06_bw6_f1_factor :
+  forall (T C P : Type) (tone : T) (tmul : T -> T -> T) (ell : T -> C -> P -> T) (line : C -> P -> T),
+       (forall a b c : T, tmul a (tmul b c) = tmul (tmul a b) c) ->
+       (forall a b : T, tmul a b = tmul b a) ->
+       (forall a : T, tmul tone a = a) ->
+       (forall (f : T) (c : C) (p : P), ell f c p = tmul f (line c p)) ->
+       forall (f_u : T) (st : list pstate) (g : T) (r : list pstate),
+       ell_all ell tone st = Some (g, r) -> ell_all ell f_u st = Some (tmul f_u g, r).
+Proof. exact (@skel_f1_factor). Qed.
+
+(* BW6 second loop: jointly multiplicative in (f_u, f_u^-1, accumulator, pair list) *)
+Theorem C06_bw6_loop2_splits :
+  forall (T C P : Type) (tmul : T -> T -> T) (tsq : T -> T) (ell : T -> C -> P -> T) (line : C -> P -> T),
+       (forall a b c : T, tmul a (tmul b c) = tmul (tmul a b) c) ->
+       (forall a b : T, tmul a b = tmul b a) ->
+       (forall f : T, tsq f = tmul f f) ->
+       (forall (f : T) (c : C) (p : P), ell f c p = tmul f (line c p)) ->
+       forall (ds : list Z) (ua ia ub ib fa fb : T) (a b : list pstate) (ga gb : T) (a' b' : list pstate),
+       bw6_loop2 tmul tsq ell ua ia ds fa a = Some (ga, a') ->
+       bw6_loop2 tmul tsq ell ub ib ds fb b = Some (gb, b') ->
+       bw6_loop2 tmul tsq ell (tmul ua ub) (tmul ia ib) ds (tmul fa fb) (a ++ b) = Some (tmul ga gb, a' ++ b').
+Proof. exact (@bw6_loop2_splits). Qed.
+
+(* BW6 skeleton: no surviving pair -> one *)
+Theorem C06_bw6_skel_multi_nil :
+  forall (T C P : Type) (tone : T) (tmul : T -> T -> T) (tsq : T -> T) (ell : T -> C -> P -> T)
+         (conj frob1 : T -> T) (cinv : T -> option T),
+       (forall a : T, tmul tone a = a) ->
+       (forall f : T, tsq f = tmul f f) ->
+       forall (bits1 : list bool) (ate1_neg : bool) (ds2 : list Z) (ate2_neg tmodr : bool),
+       conj tone = tone ->
+       frob1 tone = tone ->
+       cinv tone = Some tone ->
+       skel_multi tone tmul tsq ell conj frob1 cinv bits1 ate1_neg ds2 ate2_neg tmodr [] = Some tone.
+Proof. exact (@skel_multi_nil). Qed.
+
+(* (b) BW6 skeleton (chunked f_u, f_1, f_2, sign flags, Frobenius switch): over ANY list of surviving pairs = product of its values on the single pairs *)
+Theorem C06_bw6_skel_multi_equals_product :
+  forall (T C P : Type) (tone : T) (tmul : T -> T -> T) (tsq : T -> T) (ell : T -> C -> P -> T)
+         (line : C -> P -> T) (conj frob1 : T -> T) (cinv : T -> option T),
+       (forall a b c : T, tmul a (tmul b c) = tmul (tmul a b) c) ->
+       (forall a b : T, tmul a b = tmul b a) ->
+       (forall a : T, tmul tone a = a) ->
+       (forall f : T, tsq f = tmul f f) ->
+       (forall (f : T) (c : C) (p : P), ell f c p = tmul f (line c p)) ->
+       (forall a b : T, conj (tmul a b) = tmul (conj a) (conj b)) ->
+       (forall a b : T, frob1 (tmul a b) = tmul (frob1 a) (frob1 b)) ->
+       (forall a b a' b' : T, cinv a = Some a' -> cinv b = Some b' -> cinv (tmul a b) = Some (tmul a' b')) ->
+       forall (bits1 : list bool) (ate1_neg : bool) (ds2 : list Z) (ate2_neg tmodr : bool),
+       conj tone = tone ->
+       frob1 tone = tone ->
+       cinv tone = Some tone ->
+       forall (l : list kept2) (G : T),
+       skel_product tone tmul tsq ell conj frob1 cinv bits1 ate1_neg ds2 ate2_neg tmodr l = Some G ->
+       skel_multi tone tmul tsq ell conj frob1 cinv bits1 ate1_neg ds2 ate2_neg tmodr l = Some G.
+Proof. exact (@skel_multi_equals_product). Qed.
+
+(* (b) BW6 executed multi_miller_loop (identity filter in front) = product of its values on the single pairs; premises = field arithmetic of the Fp6 tower *)
+Theorem C06_bw6_multi_equals_product :
+  forall (cid : Z) (T0 : Type) (Fp : Fops T0) (nr3 : T0) (tab3_1 tab3_2 : list T0) (nr6b : T0 * T0 * T0)
+         (tab6b : list T0) (twD : bool) (ate1 : list Z) (ate1_neg : bool) (ate2 : list Z) 
+         (ate2_neg tmodr : bool),
+       (forall a b c : B6,
+        btmul cid Fp nr3 tab3_1 tab3_2 nr6b tab6b a (btmul cid Fp nr3 tab3_1 tab3_2 nr6b tab6b b c) =
+        btmul cid Fp nr3 tab3_1 tab3_2 nr6b tab6b (btmul cid Fp nr3 tab3_1 tab3_2 nr6b tab6b a b) c) ->
+       (forall a b : B6,
+        btmul cid Fp nr3 tab3_1 tab3_2 nr6b tab6b a b = btmul cid Fp nr3 tab3_1 tab3_2 nr6b tab6b b a) ->
+       (forall a : B6, btmul cid Fp nr3 tab3_1 tab3_2 nr6b tab6b (btone cid Fp nr3 tab3_1 tab3_2 nr6b tab6b) a = a) ->
+       (forall f : B6, btsq cid Fp nr3 tab3_1 tab3_2 nr6b tab6b f = btmul cid Fp nr3 tab3_1 tab3_2 nr6b tab6b f f) ->
+       (forall (f : T0 * T0 * T0 * (T0 * T0 * T0)) (x0 x1 x4 : T0),
+        fp6b_mul_by_014 Fp nr3 f x0 x1 x4 =
+        btmul cid Fp nr3 tab3_1 tab3_2 nr6b tab6b f (x0, x1, f0 Fp, (f0 Fp, x4, f0 Fp))) ->
+       (forall (f : T0 * T0 * T0 * (T0 * T0 * T0)) (x0 x3 x4 : T0),
+        fp6b_mul_by_034 Fp nr3 f x0 x3 x4 =
+        btmul cid Fp nr3 tab3_1 tab3_2 nr6b tab6b f (x0, f0 Fp, f0 Fp, (x3, x4, f0 Fp))) ->
+       (forall a b : B6,
+        bconj cid Fp nr3 (btmul cid Fp nr3 tab3_1 tab3_2 nr6b tab6b a b) =
+        btmul cid Fp nr3 tab3_1 tab3_2 nr6b tab6b (bconj cid Fp nr3 a) (bconj cid Fp nr3 b)) ->
+       (forall a b : B6,
+        bfrob cid Fp nr3 tab3_1 tab3_2 nr6b tab6b 1 (btmul cid Fp nr3 tab3_1 tab3_2 nr6b tab6b a b) =
+        btmul cid Fp nr3 tab3_1 tab3_2 nr6b tab6b (bfrob cid Fp nr3 tab3_1 tab3_2 nr6b tab6b 1 a)
+          (bfrob cid Fp nr3 tab3_1 tab3_2 nr6b tab6b 1 b)) ->
+       (forall a b a' b' : B6,
+        bcyc_inverse cid Fp nr3 tab3_1 tab3_2 nr6b tab6b a = Some a' ->
+        bcyc_inverse cid Fp nr3 tab3_1 tab3_2 nr6b tab6b b = Some b' ->
+        bcyc_inverse cid Fp nr3 tab3_1 tab3_2 nr6b tab6b (btmul cid Fp nr3 tab3_1 tab3_2 nr6b tab6b a b) =
+        Some (btmul cid Fp nr3 tab3_1 tab3_2 nr6b tab6b a' b')) ->
+       bconj cid Fp nr3 (btone cid Fp nr3 tab3_1 tab3_2 nr6b tab6b) = btone cid Fp nr3 tab3_1 tab3_2 nr6b tab6b ->
+       bfrob cid Fp nr3 tab3_1 tab3_2 nr6b tab6b 1 (btone cid Fp nr3 tab3_1 tab3_2 nr6b tab6b) =
+       btone cid Fp nr3 tab3_1 tab3_2 nr6b tab6b ->
+       bcyc_inverse cid Fp nr3 tab3_1 tab3_2 nr6b tab6b (btone cid Fp nr3 tab3_1 tab3_2 nr6b tab6b) =
+       Some (btone cid Fp nr3 tab3_1 tab3_2 nr6b tab6b) ->
+       forall (pairs : list bw6_pair) (G : B6),
+       bw6_product_of_pairs cid Fp nr3 tab3_1 tab3_2 nr6b tab6b twD ate1 ate1_neg ate2 ate2_neg tmodr pairs = Some G ->
+       bw6_multi_miller_prepared cid Fp nr3 tab3_1 tab3_2 nr6b tab6b twD ate1 ate1_neg ate2 ate2_neg tmodr pairs =
+       Some G.
+Proof. exact (@bw6_multi_equals_product). Qed.
+
+(* (c) BW6: a pair with an identity in either slot gives one *)
+Theorem C06_bw6_identity_pair_dropped :
+  forall (cid : Z) (T0 : Type) (Fp : Fops T0) (nr3 : T0) (tab3_1 tab3_2 : list T0) (nr6b : T0 * T0 * T0)
+         (tab6b : list T0) (twD : bool) (ate1 : list Z) (ate1_neg : bool) (ate2 : list Z) 
+         (ate2_neg tmodr : bool),
+       (forall a : B6, btmul cid Fp nr3 tab3_1 tab3_2 nr6b tab6b (btone cid Fp nr3 tab3_1 tab3_2 nr6b tab6b) a = a) ->
+       (forall f : B6, btsq cid Fp nr3 tab3_1 tab3_2 nr6b tab6b f = btmul cid Fp nr3 tab3_1 tab3_2 nr6b tab6b f f) ->
+       bconj cid Fp nr3 (btone cid Fp nr3 tab3_1 tab3_2 nr6b tab6b) = btone cid Fp nr3 tab3_1 tab3_2 nr6b tab6b ->
+       bfrob cid Fp nr3 tab3_1 tab3_2 nr6b tab6b 1 (btone cid Fp nr3 tab3_1 tab3_2 nr6b tab6b) =
+       btone cid Fp nr3 tab3_1 tab3_2 nr6b tab6b ->
+       bcyc_inverse cid Fp nr3 tab3_1 tab3_2 nr6b tab6b (btone cid Fp nr3 tab3_1 tab3_2 nr6b tab6b) =
+       Some (btone cid Fp nr3 tab3_1 tab3_2 nr6b tab6b) ->
+       forall pr : bw6_pair,
+       bw6_keep pr = [] ->
+       bw6_multi_miller_prepared cid Fp nr3 tab3_1 tab3_2 nr6b tab6b twD ate1 ate1_neg ate2 ate2_neg tmodr [pr] =
+       Some (btone cid Fp nr3 tab3_1 tab3_2 nr6b tab6b).
+Proof. exact (@bw6_identity_pair_dropped). Qed.
+
+(* (c) BW6: empty list -> one *)
+Theorem C06_bw6_empty_is_one :
+  forall (cid : Z) (T0 : Type) (Fp : Fops T0) (nr3 : T0) (tab3_1 tab3_2 : list T0) (nr6b : T0 * T0 * T0)
+         (tab6b : list T0) (twD : bool) (ate1 : list Z) (ate1_neg : bool) (ate2 : list Z) 
+         (ate2_neg tmodr : bool),
+       (forall a : B6, btmul cid Fp nr3 tab3_1 tab3_2 nr6b tab6b (btone cid Fp nr3 tab3_1 tab3_2 nr6b tab6b) a = a) ->
+       (forall f : B6, btsq cid Fp nr3 tab3_1 tab3_2 nr6b tab6b f = btmul cid Fp nr3 tab3_1 tab3_2 nr6b tab6b f f) ->
+       bconj cid Fp nr3 (btone cid Fp nr3 tab3_1 tab3_2 nr6b tab6b) = btone cid Fp nr3 tab3_1 tab3_2 nr6b tab6b ->
+       bfrob cid Fp nr3 tab3_1 tab3_2 nr6b tab6b 1 (btone cid Fp nr3 tab3_1 tab3_2 nr6b tab6b) =
+       btone cid Fp nr3 tab3_1 tab3_2 nr6b tab6b ->
+       bcyc_inverse cid Fp nr3 tab3_1 tab3_2 nr6b tab6b (btone cid Fp nr3 tab3_1 tab3_2 nr6b tab6b) =
+       Some (btone cid Fp nr3 tab3_1 tab3_2 nr6b tab6b) ->
+       bw6_multi_miller_prepared cid Fp nr3 tab3_1 tab3_2 nr6b tab6b twD ate1 ate1_neg ate2 ate2_neg tmodr [] =
+       Some (btone cid Fp nr3 tab3_1 tab3_2 nr6b tab6b).
+Proof. exact (@bw6_empty_is_one). Qed.
+
+(* BW6: unprepared inputs = prepared inputs *)
+Theorem C06_bw6_prepared_equals_unprepared :
+  forall (cid : Z) (T0 : Type) (Fp : Fops T0) (nr3 : T0) (tab3_1 tab3_2 : list T0) (nr6b : T0 * T0 * T0)
+         (tab6b : list T0) (twD : bool) (ate1 : list Z) (ate1_neg : bool) (ate2 : list Z) 
+         (ate2_neg tmodr : bool) (coeff_b : T0) (pairs : list (option (T0 * T0) * option (T0 * T0))),
+       bw6_multi_miller cid Fp nr3 tab3_1 tab3_2 nr6b tab6b twD ate1 ate1_neg ate2 ate2_neg tmodr coeff_b pairs =
+       match bw6_prepare_pairs Fp twD ate1 ate1_neg ate2 coeff_b pairs with
+       | Some l =>
+           bw6_multi_miller_prepared cid Fp nr3 tab3_1 tab3_2 nr6b tab6b twD ate1 ate1_neg ate2 ate2_neg tmodr l
+       | None => None
+       end.
+Proof. exact (@bw6_prepared_equals_unprepared). Qed.
+
+(* BW6: the G2 identity is prepared to {[], [], infinity} *)
+Theorem C06_bw6_prepare_identity :
+  forall (T0 : Type) (Fp : Fops T0) (twD : bool) (ate1 : list Z) (ate1_neg : bool) (ate2 : list Z)
+         (coeff_b : T0), bw6_prepare Fp coeff_b twD ate1 ate1_neg ate2 None = Some ([], [], true).
+Proof. exact (@bw6_prepare_identity). Qed.
+
+(* (a) bw6_761 hard-part override (eprint 2020/351 Alg. 6) computes f^(R0(x) + p R1(x)) on the cyclotomic subgroup *)
+Theorem C06_bw6_761_hard_exponent :
+  forall (T : Type) (one : T) (mul : T -> T -> T) (inv : T -> T) (U : T -> Prop),
+       cgroup one mul inv U ->
+       forall Cy : T -> Prop,
+       (forall a : T, Cy a -> U a) ->
+       Cy one ->
+       (forall a b : T, Cy a -> Cy b -> Cy (mul a b)) ->
+       (forall a : T, Cy a -> Cy (inv a)) ->
+       forall (conj : T -> T) (frob : Z -> T -> T) (p : Z),
+       (forall a : T, Cy a -> conj a = inv a) ->
+       (forall (k : Z) (a : T), U a -> frob k a = pow one mul inv a (p ^ k)) ->
+       forall (x : Z) (expx tsq : T -> T),
+       (forall a : T, Cy a -> expx a = pow one mul inv a x) ->
+       (forall a : T, tsq a = mul a a) ->
+       forall f : T, Cy f -> bw6_761_chain mul conj (frob 1) expx tsq f = pow one mul inv f (bw6_761_hard_E p x).
+Proof. exact (@bw6_761_hard_exponent). Qed.
+
+(* (b) BLS12 over the integers mod p (ZpS p): multi = product with the Fp12 arithmetic premises DISCHARGED by the C02 theorems; only the premises on the constants remain *)
+Theorem C06_bls12_multi_equals_product_zp :
+  forall (p cid : Z) (nr2 : Zp p) (tab2 : list (Zp p)) (nr6 : Zp p * Zp p)
+         (tab6_1 tab6_2 tab12 : list (Zp p * Zp p)),
+       fp2_consts_ok cid (ZpS p) nr2 ->
+       fp6a_consts_ok cid (ZpS p) nr6 ->
+       forall (twD : bool) (X : list Z) (xneg : bool)
+         (pairs : list (option (Zp p * Zp p) * (list (E2 * E2 * E2) * bool))) (G : E12) (R : list pstate),
+       product_of_pairs
+         (tone cid (ZpS p) nr2 tab2 nr6 tab6_1 tab6_2
+            (f0 (ZpS p), f0 (ZpS p), (f1 (ZpS p), f0 (ZpS p)), (f0 (ZpS p), f0 (ZpS p))) tab12)
+         (tmul cid (ZpS p) nr2 tab2 nr6 tab6_1 tab6_2
+            (f0 (ZpS p), f0 (ZpS p), (f1 (ZpS p), f0 (ZpS p)), (f0 (ZpS p), f0 (ZpS p))) tab12)
+         (bits_loop
+            (tsq cid (ZpS p) nr2 tab2 nr6 tab6_1 tab6_2
+               (f0 (ZpS p), f0 (ZpS p), (f1 (ZpS p), f0 (ZpS p)), (f0 (ZpS p), f0 (ZpS p))) tab12)
+            (ell12 cid (ZpS p) nr2 nr6 twD) (tl (bits_be_nlz X))) (bls12_tail cid (ZpS p) nr2 nr6 xneg) pairs =
+       Some (G, R) ->
+       bls12_multi_miller_prepared cid (ZpS p) nr2 tab2 nr6 tab6_1 tab6_2
+         (f0 (ZpS p), f0 (ZpS p), (f1 (ZpS p), f0 (ZpS p)), (f0 (ZpS p), f0 (ZpS p))) tab12 twD X xneg pairs = 
+       Some G.
+Proof. exact (@bls12_multi_equals_product_zp). Qed.
+
+(* (b) BN over Z_p: the same *)
+Theorem C06_bn_multi_equals_product_zp :
+  forall (p cid : Z) (nr2 : Zp p) (tab2 : list (Zp p)) (nr6 : Zp p * Zp p)
+         (tab6_1 tab6_2 tab12 : list (Zp p * Zp p)),
+       fp2_consts_ok cid (ZpS p) nr2 ->
+       fp6a_consts_ok cid (ZpS p) nr6 ->
+       forall (twD xneg : bool) (ate : list Z) (pairs : list (option (Zp p * Zp p) * (list (E2 * E2 * E2) * bool)))
+         (G : E12) (R : list pstate),
+       product_of_pairs
+         (tone cid (ZpS p) nr2 tab2 nr6 tab6_1 tab6_2
+            (f0 (ZpS p), f0 (ZpS p), (f1 (ZpS p), f0 (ZpS p)), (f0 (ZpS p), f0 (ZpS p))) tab12)
+         (tmul cid (ZpS p) nr2 tab2 nr6 tab6_1 tab6_2
+            (f0 (ZpS p), f0 (ZpS p), (f1 (ZpS p), f0 (ZpS p)), (f0 (ZpS p), f0 (ZpS p))) tab12)
+         (digits_loop
+            (tsq cid (ZpS p) nr2 tab2 nr6 tab6_1 tab6_2
+               (f0 (ZpS p), f0 (ZpS p), (f1 (ZpS p), f0 (ZpS p)), (f0 (ZpS p), f0 (ZpS p))) tab12)
+            (ell12 cid (ZpS p) nr2 nr6 twD) (bn_digits ate) true) (bn_tail cid (ZpS p) nr2 nr6 twD xneg) pairs =
+       Some (G, R) ->
+       bn_multi_miller_prepared cid (ZpS p) nr2 tab2 nr6 tab6_1 tab6_2
+         (f0 (ZpS p), f0 (ZpS p), (f1 (ZpS p), f0 (ZpS p)), (f0 (ZpS p), f0 (ZpS p))) tab12 twD xneg ate pairs =
+       Some G.
+Proof. exact (@bn_multi_equals_product_zp). Qed.
+
+(* (c) BLS12 over Z_p: identity pair -> one, no arithmetic premise *)
+Theorem C06_bls12_identity_pair_dropped_zp :
+  forall (p cid : Z) (nr2 : Zp p) (tab2 : list (Zp p)) (nr6 : Zp p * Zp p)
+         (tab6_1 tab6_2 tab12 : list (Zp p * Zp p)),
+       fp2_consts_ok cid (ZpS p) nr2 ->
+       fp6a_consts_ok cid (ZpS p) nr6 ->
+       forall (twD : bool) (X : list Z) (xneg : bool) (pr : option (Zp p * Zp p) * (list (E2 * E2 * E2) * bool)),
+       keep_pair pr = [] ->
+       bls12_multi_miller_prepared cid (ZpS p) nr2 tab2 nr6 tab6_1 tab6_2
+         (f0 (ZpS p), f0 (ZpS p), (f1 (ZpS p), f0 (ZpS p)), (f0 (ZpS p), f0 (ZpS p))) tab12 twD X xneg [pr] =
+       Some
+         (tone cid (ZpS p) nr2 tab2 nr6 tab6_1 tab6_2
+            (f0 (ZpS p), f0 (ZpS p), (f1 (ZpS p), f0 (ZpS p)), (f0 (ZpS p), f0 (ZpS p))) tab12).
+Proof. exact (@bls12_identity_pair_dropped_zp). Qed.
+
+(* (c) BN over Z_p: identity pair -> one, no arithmetic premise *)
+Theorem C06_bn_identity_pair_dropped_zp :
+  forall (p cid : Z) (nr2 : Zp p) (tab2 : list (Zp p)) (nr6 : Zp p * Zp p)
+         (tab6_1 tab6_2 tab12 : list (Zp p * Zp p)),
+       fp2_consts_ok cid (ZpS p) nr2 ->
+       fp6a_consts_ok cid (ZpS p) nr6 ->
+       forall (twD xneg : bool) (ate : list Z) (pr : option (Zp p * Zp p) * (list (E2 * E2 * E2) * bool)),
+       keep_pair pr = [] ->
+       bn_multi_miller_prepared cid (ZpS p) nr2 tab2 nr6 tab6_1 tab6_2
+         (f0 (ZpS p), f0 (ZpS p), (f1 (ZpS p), f0 (ZpS p)), (f0 (ZpS p), f0 (ZpS p))) tab12 twD xneg ate [pr] =
+       Some
+         (tone cid (ZpS p) nr2 tab2 nr6 tab6_1 tab6_2
+            (f0 (ZpS p), f0 (ZpS p), (f1 (ZpS p), f0 (ZpS p)), (f0 (ZpS p), f0 (ZpS p))) tab12).
+Proof. exact (@bn_identity_pair_dropped_zp). Qed.
+
+(* (a) closed fact for bls12_381: E(x,p) * r = c * (p^k - 1) and gcd(c, r) = 1 (constants dumped from the Rust configuration) *)
+Theorem C06_final_exp_exponent_bls12_381 :
+  exponent_fact (easy12_E bls12_381_p 6 * bls12_hard_E bls12_381_p bls12_381_x) bls12_381_r bls12_381_c
+         bls12_381_p 12.
+Proof. exact (@fact_bls12_381). Qed.
+
+(* (a) closed fact for bls12_377: E(x,p) * r = c * (p^k - 1) and gcd(c, r) = 1 (constants dumped from the Rust configuration) *)
+Theorem C06_final_exp_exponent_bls12_377 :
+  exponent_fact (easy12_E bls12_377_p 6 * bls12_hard_E bls12_377_p bls12_377_x) bls12_377_r bls12_377_c
+         bls12_377_p 12.
+Proof. exact (@fact_bls12_377). Qed.
+
+(* (a) closed fact for bn254: E(x,p) * r = c * (p^k - 1) and gcd(c, r) = 1 (constants dumped from the Rust configuration) *)
+Theorem C06_final_exp_exponent_bn254 :
+  exponent_fact (easy12_E bn254_p 6 * bn_hard_E bn254_p bn254_x) bn254_r bn254_c bn254_p 12.
+Proof. exact (@fact_bn254). Qed.
+
+(* (a) closed fact for mnt4_298: E(x,p) * r = c * (p^k - 1) and gcd(c, r) = 1 (constants dumped from the Rust configuration) *)
+Theorem C06_final_exp_exponent_mnt4_298 :
+  exponent_fact (mnt4_first_E mnt4_298_p 2 * mnt_last_E mnt4_298_p mnt4_298_w1 mnt4_298_w0 mnt4_298_w0_is_neg)
+         mnt4_298_r mnt4_298_c mnt4_298_p 4.
+Proof. exact (@fact_mnt4_298). Qed.
+
+(* (a) closed fact for mnt4_753: E(x,p) * r = c * (p^k - 1) and gcd(c, r) = 1 (constants dumped from the Rust configuration) *)
+Theorem C06_final_exp_exponent_mnt4_753 :
+  exponent_fact (mnt4_first_E mnt4_753_p 2 * mnt_last_E mnt4_753_p mnt4_753_w1 mnt4_753_w0 mnt4_753_w0_is_neg)
+         mnt4_753_r mnt4_753_c mnt4_753_p 4.
+Proof. exact (@fact_mnt4_753). Qed.
+
+(* (a) closed fact for mnt6_298: E(x,p) * r = c * (p^k - 1) and gcd(c, r) = 1 (constants dumped from the Rust configuration) *)
+Theorem C06_final_exp_exponent_mnt6_298 :
+  exponent_fact (mnt6_first_E mnt6_298_p 3 * mnt_last_E mnt6_298_p mnt6_298_w1 mnt6_298_w0 mnt6_298_w0_is_neg)
+         mnt6_298_r mnt6_298_c mnt6_298_p 6.
+Proof. exact (@fact_mnt6_298). Qed.
+
+(* (a) closed fact for mnt6_753: E(x,p) * r = c * (p^k - 1) and gcd(c, r) = 1 (constants dumped from the Rust configuration) *)
+Theorem C06_final_exp_exponent_mnt6_753 :
+  exponent_fact (mnt6_first_E mnt6_753_p 3 * mnt_last_E mnt6_753_p mnt6_753_w1 mnt6_753_w0 mnt6_753_w0_is_neg)
+         mnt6_753_r mnt6_753_c mnt6_753_p 6.
+Proof. exact (@fact_mnt6_753). Qed.
+
+(* (a) closed fact for bw6_761: E(x,p) * r = c * (p^k - 1) and gcd(c, r) = 1 (constants dumped from the Rust configuration) *)
+Theorem C06_final_exp_exponent_bw6_761 :
+  exponent_fact ((bw6_761_p ^ 3 - 1) * (bw6_761_p + 1) * bw6_761_hard_E bw6_761_p bw6_761_x) bw6_761_r bw6_761_c
+         bw6_761_p 6.
+Proof. exact (@fact_bw6_761). Qed.
+
+(* (a) closed fact for bw6_767: E(x,p) * r = c * (p^k - 1) and gcd(c, r) = 1 (constants dumped from the Rust configuration) *)
+Theorem C06_final_exp_exponent_bw6_767 :
+  exponent_fact
+         ((bw6_767_p ^ 3 - 1) * (bw6_767_p + 1) * bw6a_E bw6_767_p bw6_767_x bw6_767_m bw6_767_d1 bw6_767_d2)
+         bw6_767_r bw6_767_c bw6_767_p 6.
+Proof. exact (@fact_bw6_767). Qed.
+
+(* (a) the generic Algorithm 4.4 chain with bw6_761's constants also has an exponent of the form c (p^6-1)/r, gcd(c, r) = 1 *)
+Theorem C06_final_exp_exponent_bw6_761_generic_b :
+  exists c : Z,
+         exponent_fact
+           ((bw6_761_p ^ 3 - 1) * (bw6_761_p + 1) * bw6b_E bw6_761_p bw6_761_x bw6_761_m bw6_761_d1 bw6_761_d2)
+           bw6_761_r c bw6_761_p 6.
+Proof. exact (@fact_bw6_761_generic_b). Qed.
+
 (* ---- Examples: the premises are satisfiable, on non-trivial instances ---- *)
 Example C06_ex_cgroup_Z : cgroup 0 Z.add Z.opp (fun _ => True).
 Proof. exact cgroup_Z. Qed.
@@ -620,3 +1089,15 @@ Proof. split; [vm_compute; reflexivity | vm_compute; discriminate]. Qed.
 Example C06_ex_bilinear :
   (forall P P' Q, (P + P') * Q = P * Q + P' * Q) /\ (forall P Q Q', P * (Q + Q') = P * Q + P * Q').
 Proof. exact ex_additive. Qed.
+(* the premises on the constants of the _zp theorems hold for a bls12_381-shaped tower (cid 0) over every p *)
+Example C06_ex_consts_zp : forall p : Z,
+  fp2_consts_ok 0 (ZpS p) (fneg (ZpS p) (f1 (ZpS p))) /\ fp6a_consts_ok 0 (ZpS p) (f1 (ZpS p), f1 (ZpS p)).
+Proof. exact consts_example. Qed.
+(* BW6 skeleton over the monoid (Z, 1, Z.mul), conj = frob = id, ell f c p = f times (c + p): six surviving pairs
+   (two chunks), loop-2 digits 1, -1, 0: the chunked function = product of the single-pair values, and is not 1 *)
+Example C06_ex_bw6_product :
+  skel_multi 1 Z.mul (fun f => f * f) ex_ell (fun f => f) (fun f => f) (fun f => Some f) [true; false] false [1; -1; 0] true false ex_bw6_pairs
+  = skel_product 1 Z.mul (fun f => f * f) ex_ell (fun f => f) (fun f => f) (fun f => Some f) [true; false] false [1; -1; 0] true false ex_bw6_pairs
+  /\ skel_multi 1 Z.mul (fun f => f * f) ex_ell (fun f => f) (fun f => f) (fun f => Some f) [true; false] false [1; -1; 0] true false ex_bw6_pairs <> Some 1
+  /\ skel_multi 1 Z.mul (fun f => f * f) ex_ell (fun f => f) (fun f => f) (fun f => Some f) [true; false] false [1; -1; 0] true false ex_bw6_pairs <> None.
+Proof. repeat split; vm_compute; (reflexivity || discriminate). Qed.
